@@ -177,6 +177,12 @@ type Found struct {
 // Discover runs pint's own discovery (GlobFinder "*" + GitBranchFinder against
 // main, exactly as cmd/pint/ci.go wires them) inside the repository.
 func (r *Repo) Discover(maxCommits int) (res Found) {
+	return r.DiscoverFiltered(maxCommits, nil, nil)
+}
+
+// DiscoverFiltered is Discover under a `parser { include = [...] exclude = [...] }`
+// configuration (patterns are anchored exactly as pint's config loader does).
+func (r *Repo) DiscoverFiltered(maxCommits int, include, exclude []string) (res Found) {
 	old, err := os.Getwd()
 	if err != nil {
 		res.Err = err
@@ -193,7 +199,7 @@ func (r *Repo) Discover(maxCommits int) (res Found) {
 			res.Stack = string(debug.Stack())
 		}
 	}()
-	filter := git.NewPathFilter(nil, nil, nil)
+	filter := git.NewPathFilter(config.MustCompileRegexes(include...), config.MustCompileRegexes(exclude...), nil)
 	entries, err := discovery.NewGlobFinder([]string{"*"}, filter, parser.PrometheusSchema, model.UTF8Validation, nil).Find()
 	if err != nil {
 		res.Err = fmt.Errorf("glob finder: %w", err)
